@@ -40,6 +40,21 @@ DRIVERS = [
 ]
 
 
+def panic_site(out):
+    """first frame of a Go panic that lies in the repository's own (non-harness) code, or None"""
+    import re
+    i = out.find("panic:")
+    if i < 0:
+        return None
+    for m in re.finditer(r"^\s+(\S+\.go):(\d+)", out[i:], re.M):
+        f = m.group(1)
+        if "/pkg/" in f and "/go/pkg/mod/" not in f and not os.path.basename(f).startswith("zz_") and "_verif" not in f:
+            return "%s:%s" % (f.split("/pkg/", 1)[1], m.group(2))
+        if os.path.basename(f).startswith("zz_") or "_verif" in f or "/verif" in f:
+            return None      # the harness itself: infrastructure
+    return None
+
+
 def run(ctx):
     ctx.level = "exploration"
     thorough = ctx.tier == "thorough"
@@ -61,7 +76,7 @@ def run(ctx):
 
     # ---- cases at the real limits (boundary partition + seeded samples)
     rng = ctx.rng
-    k = 40 if thorough else 8
+    k = 120 if thorough else 8
     samples = {
         "SAMPLES_REQ": sorted({rng.randrange(3, 254) for _ in range(k)} | {rng.randrange(258, 600) for _ in range(k // 2)}),
         "SAMPLES_RESP": sorted({rng.randrange(258, 65534) for _ in range(k)} | {rng.randrange(65538, 70000) for _ in range(k // 4)}),
@@ -101,8 +116,8 @@ def run(ctx):
     ctx.sample({"stage": "B", "case": [c for c in cases if c["a"] == "Labels" and not c["accept"]][0]})
 
     # ---- B: the real packages
-    env_extra = {"VERIF_KEYS": 400 if thorough else 60, "VERIF_MSGS": 50000 if thorough else 3000,
-                 "VERIF_ARB": 300000 if thorough else 20000, "VERIF_SWEEP_MAX": 66000 if thorough else 0}
+    env_extra = {"VERIF_KEYS": 2000 if thorough else 60, "VERIF_MSGS": 300000 if thorough else 3000,
+                 "VERIF_ARB": 2000000 if thorough else 20000, "VERIF_SWEEP_MAX": 66000 if thorough else 0}
 
     def one(d):
         name, pkg, files, pname, rx, extra = d
@@ -117,6 +132,13 @@ def run(ctx):
     for name, res, rows in results:
         summ = [x for x in rows if x.get("kind") == "summary"]
         if not summ:
+            # a panic in a goroutine of the real code (e.g. the responder's per-query goroutine) takes the whole driver down
+            where = panic_site(res["out"])
+            if where:
+                ctx.violation("%s:panic:%s" % (name, where), "the real code panics (process-fatal): %s" % where, {"output": res["out"][-3000:]})
+                for m in [x for x in rows if x.get("kind") == "mismatch"]:
+                    ctx.violation(m["key"], m["what"], {"case": m.get("case"), "got": m.get("got"), "driver": name})
+                continue
             raise vlib.InfraError("driver %s did not finish:\n%s" % (name, res["out"][-3000:]))
         summ = summ[0]
         evaluations += summ["evaluations"]
